@@ -374,6 +374,9 @@ def extend_drain_map(fr):
 
 def build(x):
     pieces = [S.CLONE_IS_EQ, PRELUDE, x.enum(FO, 'StreamElement')]
+    # integer constants of the file (a function under contract may refer to them)
+    for cm in re.finditer(r'^(?:pub(?:\([a-z]+\))? )?const (\w+): (usize|u\d+|i\d+|isize) = ([^;]+);', x.src(F).text, re.M):
+        pieces.append(f"const {cm.group(1)}: {cm.group(2)} = {cm.group(3)};   // extracted from {F}\n")
     ik = x.method(FS, '(K, V)', 'into_kv', trait='KeyedItem')
     ik.name_result('r')
     pieces += [TUPLE_IMPL.replace('§INTO_KV§', ik.fmt(ik.text) if hasattr(ik, 'fmt') else ik.text)]
